@@ -119,6 +119,22 @@ def run(ctx):
 def _run(ctx):
     ok, out = ctx.lake_build(["E3nnVerif.Props.C18"])
     ctx.obligation("build:Props.C18", ok, out[-3000:])
+    # signal_on_grid without hypothesis: glue to C11's toS2Grid_evaluates_signal, which rests on the two regenerated tables
+    # (Generated/SH.lean by T2, Generated/Legendre.lean by T5) and their kernel certificates Cert/Ang — regenerate both first
+    try:
+        import leg2poly
+        import sh2poly
+        from c05 import SRC as _SH_SRC
+        ctx.write_generated("SH.lean", sh2poly.emit(_SH_SRC)[0])
+        rows_leg, exact_leg = leg2poly.translate(11)
+        ctx.write_generated("Legendre.lean", leg2poly.render(11, rows_leg))
+        ctx.obligation("translators:T2+T5 accept the sources", exact_leg, "a Legendre coefficient is not of the documented form")
+    except Exception as e:  # noqa: BLE001
+        ctx.obligation("translators:T2+T5 accept the sources", False, repr(e)[-1200:])
+    okg, outg = ctx.lake_build(["E3nnVerif.Props.C18Grid"], timeout=7000)
+    ctx.obligation("build:Props.C18Grid (signal_on_grid = signal_xyz on the grid, certificates Cert/Ang/L0..L8)", okg, outg[-2500:])
+    if okg:
+        ctx.audit(["E3nnVerif.Props.C18Grid"], files=[common_path("lean/E3nnVerif/Props/C18Grid.lean")])
     ctx.audit(["E3nnVerif.Props.C18"],
               files=[common_path("lean/E3nnVerif/Model/SphericalTensor.lean"), common_path("lean/E3nnVerif/Theory/SphericalTensor.lean"),
                      common_path("lean/E3nnVerif/Props/C18.lean"), common_path("lean/drivers/C18.lean"),
